@@ -46,6 +46,7 @@ class Ser:
         self.nodes = []          # index = node id
         self.index = {}          # structural key -> node id
         self.by_obj = {}         # id(expression) -> node id
+        self.keep = []           # serialised objects stay alive, so that id() is never re-used
 
     def add(self, key, node):
         k = json.dumps(key, sort_keys=True)
@@ -61,6 +62,7 @@ class Ser:
             raise TypeError(f'not an expression: {type(e)}')
         if id(e) in self.by_obj:
             return self.by_obj[id(e)]
+        self.keep.append(e)
         c = type(e).__name__
         if c == 'Numeric':
             n = {'c': c, 'v': float(e.value)}
@@ -136,7 +138,34 @@ def cnl_structures(ids, max_nests, reduce_symmetry):
 
 def engine_tree(name):
     """Trees also evaluated through the compiled engine (the others only through the Python evaluator)."""
-    return '@tuple' not in name and not name.startswith('lnG') and not name.startswith('G')
+    return '@tuple' not in name and '#' not in name and not name.startswith('lnG') and not name.startswith('G')
+
+
+VARIANTS = ('same-name', 'reused', 'reordered', 'unsorted-names')
+
+
+def named_structure(variant, make_nest, make_nests, k):
+    """The same nest structure (nests in the same positions) reached through a different naming history.
+
+    same-name:      every nest carries the explicit name 'N'
+    reused:         unnamed nest objects first used alone -- (A_2,), (A_3,), ... -- each is named 'nest_1' in place by
+                    Nests.__init__; then (A_1, ..., A_k) is built and A_1 is named 'nest_1' too (the (A,), then (B, A) history)
+    reordered:      the same unnamed objects first used in the reverse order (A_k, ..., A_1): names are nest_k..nest_1 when
+                    the structure (A_1, ..., A_k) is built, i.e. do not follow the positions and sort in the other order
+    unsorted-names: explicit names 'z1', 'y2', 'x3', ... (listed in the opposite of their sort order)
+    make_nest(m, name) builds nest m; make_nests(tuple) builds the Nests object.
+    """
+    if variant == 'same-name':
+        return make_nests(tuple(make_nest(m, 'N') for m in range(k)))
+    if variant == 'unsorted-names':
+        return make_nests(tuple(make_nest(m, f'{chr(122 - m)}{m + 1}') for m in range(k)))
+    objs = [make_nest(m, None) for m in range(k)]
+    if variant == 'reused':
+        for m in range(1, k):
+            make_nests((objs[m],))
+    else:
+        make_nests(tuple(reversed(objs)))
+    return make_nests(tuple(objs))
 
 
 def safe(f):
@@ -285,6 +314,24 @@ def fam_nested(sid, ids, nests, with_av, rng, cfg, prop):
     s.tree('logP', lambda: models.lognested(V, av, obj(), ch))
     s.tree('P_mu', lambda: models.nested_mev_mu(V, av, obj(), ch, MU))
     s.tree('logP_mu', lambda: models.lognested_mev_mu(V, av, obj(), ch, MU))
+    if len(nests) >= 2:
+        for var in VARIANTS:
+            def vobj(var=var):
+                return named_structure(var, lambda m, nm: OneNestForNestedLogit(mus[m], list(nests[m]), nm),
+                                       lambda t: NestsForNestedLogit(list(ids), t), len(nests))
+            s.tree(f'P#{var}', lambda vobj=vobj: models.nested(V, av, vobj(), ch))
+            s.tree(f'logP#{var}', lambda vobj=vobj: models.lognested(V, av, vobj(), ch))
+            s.tree(f'P_mu#{var}', lambda vobj=vobj: models.nested_mev_mu(V, av, vobj(), ch, MU))
+            if prop == 'C06':
+                s.tree(f'G#{var}', lambda vobj=vobj: models.get_mev_generating_for_nested(V, av, vobj()), choice=False)
+                try:
+                    vg = models.get_mev_for_nested(V, av, vobj())
+                    vgm = models.get_mev_for_nested_mu(V, av, vobj(), MU)
+                    for i in ids:
+                        s.tree(f'lnG#{var}:{i}', (lambda vg=vg, i=i: vg[i]), choice=False)
+                        s.tree(f'lnG_mu#{var}:{i}', (lambda vgm=vgm, i=i: vgm[i]), choice=False)
+                except Exception as ex:
+                    s.build_errors.append(f'get_mev_for_nested#{var}: {type(ex).__name__}: {str(ex)[:200]}')
     if prop == 'C06':
         s.tree('P_logit', lambda: models.logit(V, av, ch))
         s.tree('G', lambda: models.get_mev_generating_for_nested(V, av, obj()), choice=False)
@@ -358,6 +405,14 @@ def fam_cnl(sid, ids, nests, with_av, rng, cfg, prop):
     s.tree('logP', lambda: models.logcnl(V, av, obj(), ch))
     s.tree('P_mu', lambda: models.cnlmu(V, av, obj(), ch, MU))
     s.tree('logP_mu', lambda: models.logcnlmu(V, av, obj(), ch, MU))
+    if len(nests) >= 2:
+        for var in VARIANTS:
+            def vobj(var=var):
+                return named_structure(var, lambda m, nm: OneNestForCrossNestedLogit(mus[m], dict(al[m]), nm),
+                                       lambda t: NestsForCrossNestedLogit(list(ids), t), len(nests))
+            s.tree(f'P#{var}', lambda vobj=vobj: models.cnl(V, av, vobj(), ch))
+            s.tree(f'logP#{var}', lambda vobj=vobj: models.logcnl(V, av, vobj(), ch))
+            s.tree(f'P_mu#{var}', lambda vobj=vobj: models.cnlmu(V, av, vobj(), ch, MU))
     if prop == 'C06' and nests:
         s.tree('P@tuple', lambda: models.cnl(V, av, tup(), ch))
         s.tree('logP@tuple', lambda: models.logcnl(V, av, tup(), ch))
